@@ -30,13 +30,35 @@ func yamlMarshalStream(vs []any) ([]byte, error) {
 			continue
 		}
 
-		err := enc.Encode(v)
+		// Encode through a node tree so that the string "<<" can be quoted:
+		// written plain it would read back as a merge key, not as data.
+		var node yaml.Node
+
+		err := node.Encode(v)
+		if err != nil {
+			return nil, err
+		}
+
+		yamlQuoteMergeStrings(&node)
+
+		err = enc.Encode(&node)
 		if err != nil {
 			return nil, err
 		}
 	}
 
 	return buf.Bytes(), nil
+}
+
+func yamlQuoteMergeStrings(node *yaml.Node) {
+	if node.Kind == yaml.ScalarNode && node.Tag == "!!merge" {
+		node.Tag = "!!str"
+		node.Style = yaml.DoubleQuotedStyle
+	}
+
+	for _, child := range node.Content {
+		yamlQuoteMergeStrings(child)
+	}
 }
 
 var yamlRE = regexp.MustCompile(`(?m)^---$`)
@@ -91,7 +113,7 @@ func yamlTranslateNode(node *yaml.Node) (any, error) {
 
 		// First see if there's a merge statement, and merge the referenced map(s) into ret.
 		for i := 0; i+1 < len(node.Content); i += 2 {
-			if node.Content[i].Value == "<<" {
+			if yamlIsMergeKey(node.Content[i]) {
 				v2, err := yamlTranslateNode(node.Content[i+1])
 				if err != nil {
 					return nil, err
@@ -106,7 +128,7 @@ func yamlTranslateNode(node *yaml.Node) (any, error) {
 
 		// Next iterate over all the local values of the map.
 		for i := 0; i+1 < len(node.Content); i += 2 {
-			if node.Content[i].Value == "<<" {
+			if yamlIsMergeKey(node.Content[i]) {
 				continue
 			}
 
@@ -139,7 +161,8 @@ func yamlTranslateNode(node *yaml.Node) (any, error) {
 		case "!!null":
 			return nil, nil
 
-		case "!!str", "!!timestamp":
+		case "!!str", "!!timestamp", "!!merge":
+			// "!!merge" is a plain "<<" in value position: just a string
 			return node.Value, nil
 
 		default:
@@ -159,6 +182,12 @@ func yamlTranslateNode(node *yaml.Node) (any, error) {
 	default:
 		return nil, fmt.Errorf("unknown yaml type: %d (%w)", node.Kind, ErrInvalidType)
 	}
+}
+
+// yamlIsMergeKey reports whether a mapping key is the merge indicator: a
+// plain <<. A quoted "<<" is an ordinary key.
+func yamlIsMergeKey(key *yaml.Node) bool {
+	return key.Kind == yaml.ScalarNode && key.Value == "<<" && key.ShortTag() == "!!merge"
 }
 
 // yamlContains reports whether target is part of the subtree rooted at node
